@@ -3,7 +3,7 @@ import SedVerif.Model.History
 # Helper lemmas for C10 (core Lean only)
 
 Part 1: what `Writer.write` appends; the source loop against `parsePrefix`; the reader against the
-serialised frames.  Part 2: heap lemmas (`lookupRef`/`updateRef`/`freshRef`/`alloc`), the extension
+serialised frames (for codecs whose laws hold on a subset `P` of the objects).  Part 2: heap lemmas (`lookupRef`/`updateRef`/`freshRef`/`alloc`), the extension
 order `Ext` (everything the caller can reach is untouched), one iteration of `FitInfoFile.__iter__`
 in copy mode, and the two loops.
 -/
@@ -134,51 +134,64 @@ theorem parsePrefix_upto (parse : L → Except Err Src) : ∀ (pre : List L) (ss
       simp only [List.map_cons, List.cons.injEq] at hall
       simp [parsePrefix, hall.1, ih ss tail hall.2 ht]
 
-theorem enc_ne_nil {α : Type} {enc : α → List B} {dec : List B → Dec α B} (hl : CodecLaws enc dec) (x : α) :
-    enc x ≠ [] := by
+theorem enc_ne_nil {α : Type} {P : α → Prop} {enc : α → List B} {dec : List B → Dec α B}
+    (hl : CodecLawsOn P enc dec) (x : α) (hx : P x) : enc x ≠ [] := by
   intro h
-  have h1 := hl.roundtrip x []
+  have h1 := hl.roundtrip x hx []
   rw [h, List.append_nil, hl.atEnd] at h1
   cases h1
 
-theorem readRecs_serialize {encH : Hdr → List B} {enc : Rec → List B} {dec : List B → Dec Rec B}
-    (hl : CodecLaws enc dec) : ∀ (rs : List Rec) (n : Nat),
+theorem readRecs_serialize {P : Rec → Prop} {encH : Hdr → List B} {enc : Rec → List B} {dec : List B → Dec Rec B}
+    (hl : CodecLawsOn P enc dec) : ∀ (rs : List Rec) (n : Nat), (∀ r ∈ rs, P r) →
     (serialize encH enc (rs.map .recd)).length < n →
     readRecs dec n (serialize encH enc (rs.map .recd)) = .ok rs := by
   intro rs
   induction rs with
   | nil =>
-    intro n hn
+    intro n _ hn
     cases n with
     | zero => omega
     | succ n => simp [serialize, readRecs, hl.atEnd]
   | cons r rs ih =>
-    intro n hn
+    intro n hP hn
     cases n with
     | zero => omega
     | succ n =>
       simp only [List.map_cons, serialize, List.length_append] at hn ⊢
-      have hpos : 0 < (enc r).length := List.length_pos_iff.mpr (enc_ne_nil hl r)
-      simp only [readRecs, hl.roundtrip]
-      rw [ih n (by omega)]
+      have hr : P r := hP r (List.mem_cons_self ..)
+      have hpos : 0 < (enc r).length := List.length_pos_iff.mpr (enc_ne_nil hl r hr)
+      simp only [readRecs, hl.roundtrip r hr]
+      rw [ih n (fun r' h' => hP r' (List.mem_cons_of_mem _ h')) (by omega)]
 
-theorem readAll_framesOf {encH : Hdr → List B} {decH : List B → Dec Hdr B}
+theorem readAll_framesOf {PH : Hdr → Prop} {PR : Rec → Prop} {encH : Hdr → List B} {decH : List B → Dec Hdr B}
     {enc : Rec → List B} {dec : List B → Dec Rec B}
-    (hH : CodecLaws encH decH) (hR : CodecLaws enc dec) (h : Hdr) (r : Rec) (rs : List Rec) :
+    (hH : CodecLawsOn PH encH decH) (hR : CodecLawsOn PR enc dec) (h : Hdr) (r : Rec) (rs : List Rec)
+    (hh : PH h) (hrs : ∀ r' ∈ r :: rs, PR r') :
     readAll decH dec (serialize encH enc (framesOf h (r :: rs))) = .ok (h, r :: rs) := by
   have hs : serialize encH enc (framesOf h (r :: rs)) = encH h ++ serialize encH enc ((r :: rs).map .recd) := by
     simp [framesOf, serialize]
   rw [hs]
-  simp only [readAll, hH.roundtrip]
-  rw [readRecs_serialize hR (r :: rs) _ (Nat.lt_succ_self _)]
+  simp only [readAll, hH.roundtrip h hh]
+  rw [readRecs_serialize hR (r :: rs) _ hrs (Nat.lt_succ_self _)]
+
+/-- a byte codec for states lifts to a codec for the objects on which `__setstate__ ∘ __getstate__`
+    is the identity -/
+theorem codec_via {α σ : Type} {P : α → Prop} {get : α → σ} {set : σ → Except Err α}
+    {encS : σ → List B} {decS : List B → Dec σ B}
+    (hS : CodecLaws encS decS) (hrt : ∀ x, P x → set (get x) = .ok x) :
+    CodecLawsOn P (encVia get encS) (decVia set decS) := by
+  refine ⟨?_, ?_⟩
+  · intro x hx rest
+    simp only [encVia, decVia, hS.roundtrip (get x) trivial rest, hrt x hx]
+  · simp only [decVia, hS.atEnd]
 
 end part1
 
 /-! ## Part 2 -/
 section part2
-variable {Rec Sel Thr V : Type}
+variable {α : Type}
 
-theorem lookup_lt_fresh : ∀ (h : Heap Rec) (r : Nat) (v : Rec), lookupRef r h = some v → r < freshRef h := by
+theorem lookup_lt_fresh : ∀ (h : Heap α) (r : Nat) (v : α), lookupRef r h = some v → r < freshRef h := by
   intro h
   induction h with
   | nil => intro r v hv; simp [lookupRef] at hv
@@ -193,8 +206,8 @@ theorem lookup_lt_fresh : ∀ (h : Heap Rec) (r : Nat) (v : Rec), lookupRef r h 
       have := ih r v hv
       omega
 
-theorem lookup_update_ne (r r0 : Nat) (f : Rec → Rec) (hne : r ≠ r0) :
-    ∀ h : Heap Rec, lookupRef r (updateRef r0 f h) = lookupRef r h := by
+theorem lookup_update_ne (r r0 : Nat) (f : α → α) (hne : r ≠ r0) :
+    ∀ h : Heap α, lookupRef r (updateRef r0 f h) = lookupRef r h := by
   intro h
   induction h with
   | nil => rfl
@@ -207,8 +220,8 @@ theorem lookup_update_ne (r r0 : Nat) (f : Rec → Rec) (hne : r ≠ r0) :
       simp [lookupRef, ih, hne']
     · simp only [h0, if_false, lookupRef, ih]
 
-theorem lookup_update_eq (r0 : Nat) (f : Rec → Rec) :
-    ∀ h : Heap Rec, lookupRef r0 (updateRef r0 f h) = (lookupRef r0 h).map f := by
+theorem lookup_update_eq (r0 : Nat) (f : α → α) :
+    ∀ h : Heap α, lookupRef r0 (updateRef r0 f h) = (lookupRef r0 h).map f := by
   intro h
   induction h with
   | nil => rfl
@@ -219,7 +232,7 @@ theorem lookup_update_eq (r0 : Nat) (f : Rec → Rec) :
     · simp [h0, lookupRef]
     · simp [h0, lookupRef, ih]
 
-theorem fresh_update (r0 : Nat) (f : Rec → Rec) : ∀ h : Heap Rec, freshRef (updateRef r0 f h) = freshRef h := by
+theorem fresh_update (r0 : Nat) (f : α → α) : ∀ h : Heap α, freshRef (updateRef r0 f h) = freshRef h := by
   intro h
   induction h with
   | nil => rfl
@@ -228,16 +241,16 @@ theorem fresh_update (r0 : Nat) (f : Rec → Rec) : ∀ h : Heap Rec, freshRef (
     simp only [updateRef]
     by_cases h0 : r' = r0 <;> simp [h0, freshRef, ih]
 
-/-- `h'` extends `h`: every reference the owner of `h` can hold still leads to the same value -/
-def Ext (h h' : Heap Rec) : Prop :=
+/-- `h'` extends `h`: every reference the owner of `h` can hold still leads to the same thing -/
+def Ext (h h' : Heap α) : Prop :=
   freshRef h ≤ freshRef h' ∧ ∀ r, r < freshRef h → lookupRef r h' = lookupRef r h
 
-theorem Ext.refl (h : Heap Rec) : Ext h h := ⟨Nat.le_refl _, fun _ _ => rfl⟩
+theorem Ext.refl (h : Heap α) : Ext h h := ⟨Nat.le_refl _, fun _ _ => rfl⟩
 
-theorem Ext.trans {h1 h2 h3 : Heap Rec} (a : Ext h1 h2) (b : Ext h2 h3) : Ext h1 h3 :=
+theorem Ext.trans {h1 h2 h3 : Heap α} (a : Ext h1 h2) (b : Ext h2 h3) : Ext h1 h3 :=
   ⟨Nat.le_trans a.1 b.1, fun r hr => by rw [b.2 r (Nat.lt_of_lt_of_le hr a.1), a.2 r hr]⟩
 
-theorem ext_alloc (h : Heap Rec) (v : Rec) : Ext h (alloc h v).1 := by
+theorem ext_alloc (h : Heap α) (v : α) : Ext h (alloc h v).1 := by
   refine ⟨?_, ?_⟩
   · simp only [alloc, freshRef]; omega
   · intro r hr
@@ -245,7 +258,7 @@ theorem ext_alloc (h : Heap Rec) (v : Rec) : Ext h (alloc h v).1 := by
     have : ¬ freshRef h = r := by omega
     simp [this]
 
-theorem ext_alloc_update (h : Heap Rec) (v : Rec) (f : Rec → Rec) :
+theorem ext_alloc_update (h : Heap α) (v : α) (f : α → α) :
     Ext h (updateRef (freshRef h) f (alloc h v).1) := by
   refine ⟨?_, ?_⟩
   · rw [fresh_update]; exact (ext_alloc h v).1
@@ -253,192 +266,383 @@ theorem ext_alloc_update (h : Heap Rec) (v : Rec) (f : Rec → Rec) :
     rw [lookup_update_ne r (freshRef h) f (by omega)]
     exact (ext_alloc h v).2 r hr
 
-theorem lookup_alloc (h : Heap Rec) (v : Rec) : lookupRef (freshRef h) (alloc h v).1 = some v := by
+theorem lookup_alloc (h : Heap α) (v : α) : lookupRef (freshRef h) (alloc h v).1 = some v := by
   simp [alloc, lookupRef]
 
-theorem lookup_alloc_update (h : Heap Rec) (v : Rec) (f : Rec → Rec) :
+theorem lookup_alloc_update (h : Heap α) (v : α) (f : α → α) :
     lookupRef (freshRef h) (updateRef (freshRef h) f (alloc h v).1) = some (f v) := by
   rw [lookup_update_eq, lookup_alloc]; rfl
 
-theorem itemVal_ext {h h' : Heap Rec} (e : Ext h h') (it : Item Rec) (v : Rec)
-    (hv : itemVal h it = some v) : itemVal h' it = some v := by
-  cases it with
-  | disk v' => exact hv
-  | mem r =>
-    simp only [itemVal] at hv ⊢
-    rw [e.2 r (lookup_lt_fresh h r v hv), hv]
+variable {X Sel Thr V Pk : Type}
 
-theorem itemsVals_ext {h h' : Heap Rec} (e : Ext h h') : ∀ (its : List (Item Rec)) (vs : List Rec),
-    itemsVals h its = some vs → itemsVals h' its = some vs := by
-  intro its
-  induction its with
-  | nil => intro vs hv; exact hv
-  | cons it its ih =>
-    intro vs hv
-    simp only [itemsVals] at hv ⊢
-    cases h1 : itemVal h it with
-    | none => simp [h1] at hv
-    | some v =>
-      cases h2 : itemsVals h its with
-      | none => simp [h1, h2] at hv
-      | some ws =>
-        rw [itemVal_ext e it v h1, ih ws h2]
-        simpa [h1, h2] using hv
+/-! ### values of attributes and objects -/
 
-theorem itemsVals_cons {h : Heap Rec} {it : Item Rec} {its : List (Item Rec)} {vs : List Rec}
-    (hv : itemsVals h (it :: its) = some vs) :
-    ∃ v ws, itemVal h it = some v ∧ itemsVals h its = some ws ∧ vs = v :: ws := by
-  simp only [itemsVals] at hv
-  cases h1 : itemVal h it with
+theorem fldVal_ext {c c' : Heap (List X)} (e : Ext c c') (f : Fld) (v : FV X)
+    (hv : fldVal c f = some v) : fldVal c' f = some v := by
+  simp only [fldVal] at hv ⊢
+  cases hl : lookupRef f.ref c with
+  | none => simp [hl] at hv
+  | some a =>
+    rw [e.2 f.ref (lookup_lt_fresh c f.ref a hl), hl]
+    simpa [hl] using hv
+
+theorem objVal_cons {c : Heap (List X)} {f : Fld} {fs : Obj} {vs : RecV X}
+    (hv : objVal c (f :: fs) = some vs) :
+    ∃ v ws, fldVal c f = some v ∧ objVal c fs = some ws ∧ vs = v :: ws := by
+  simp only [objVal] at hv
+  cases h1 : fldVal c f with
   | none => simp [h1] at hv
   | some v =>
-    cases h2 : itemsVals h its with
+    cases h2 : objVal c fs with
     | none => simp [h1, h2] at hv
     | some ws =>
       refine ⟨v, ws, rfl, rfl, ?_⟩
       simp [h1, h2] at hv
       exact hv.symm
 
-/-- one `next()` of the repaired iterator: a fresh object holding the value of the item -/
-theorem yield1_copy (h : Heap Rec) (it : Item Rec) :
-    yield1 .copy h it = match itemVal h it with
-                        | none => .error .badRef
-                        | some v => .ok (alloc h v) := by
+theorem objVal_ext {c c' : Heap (List X)} (e : Ext c c') : ∀ (o : Obj) (vs : RecV X),
+    objVal c o = some vs → objVal c' o = some vs := by
+  intro o
+  induction o with
+  | nil => intro vs hv; exact hv
+  | cons f fs ih =>
+    intro vs hv
+    obtain ⟨v, ws, h1, h2, rfl⟩ := objVal_cons hv
+    simp only [objVal, fldVal_ext e f v h1, ih ws h2]
+
+/-- both levels extended -/
+def Ext2 (st st' : Store X) : Prop := Ext st.objs st'.objs ∧ Ext st.cells st'.cells
+
+theorem Ext2.refl (st : Store X) : Ext2 st st := ⟨Ext.refl _, Ext.refl _⟩
+
+theorem Ext2.trans {a b c : Store X} (x : Ext2 a b) (y : Ext2 b c) : Ext2 a c :=
+  ⟨x.1.trans y.1, x.2.trans y.2⟩
+
+theorem deref_ext {st st' : Store X} (e : Ext2 st st') (r : Nat) (v : RecV X)
+    (hv : deref st r = some v) : deref st' r = some v := by
+  simp only [deref] at hv ⊢
+  cases hl : lookupRef r st.objs with
+  | none => simp [hl] at hv
+  | some o =>
+    rw [e.1.2 r (lookup_lt_fresh _ r o hl), hl]
+    simp only [hl] at hv
+    exact objVal_ext e.2 o v hv
+
+/-- cutting an object cuts its value: `a[:n][:k]` is `a[:min k n]` -/
+theorem fldVal_keep (c : Heap (List X)) (k : Nat) (f : Fld) :
+    fldVal c (keepFld k f) = (fldVal c f).map (keepFV k) := by
+  obtain ⟨ref, len⟩ := f
+  cases len with
+  | none =>
+    simp only [fldVal, keepFld]
+    cases lookupRef ref c <;> simp [keepFV]
+  | some n =>
+    simp only [fldVal, keepFld]
+    cases lookupRef ref c with
+    | none => simp
+    | some a => simp [keepFV, List.take_take]
+
+theorem objVal_keep (c : Heap (List X)) (k : Nat) : ∀ (o : Obj),
+    objVal c (keepObj k o) = (objVal c o).map (keepV k) := by
+  intro o
+  induction o with
+  | nil => rfl
+  | cons f fs ih =>
+    have hf := fldVal_keep c k f
+    simp only [keepObj, List.map_cons, objVal] at ih ⊢
+    rw [hf, ih]
+    cases fldVal c f with
+    | none => simp
+    | some v =>
+      cases objVal c fs with
+      | none => simp
+      | some vs => simp [keepV]
+
+/-- the cells of an unpickled record hold its value, and nothing that existed is touched -/
+theorem allocFields_spec : ∀ (v : RecV X) (c : Heap (List X)),
+    Ext c (allocFields c v).1 ∧ objVal (allocFields c v).1 (allocFields c v).2 = some v := by
+  intro v
+  induction v with
+  | nil => intro c; exact ⟨Ext.refl c, rfl⟩
+  | cons x rest ih =>
+    intro c
+    obtain ⟨e, hv⟩ := ih c
+    simp only [allocFields]
+    refine ⟨e.trans (ext_alloc _ _), ?_⟩
+    have e2 := ext_alloc (allocFields c rest).1 x.2
+    have h2 := objVal_ext e2 _ _ hv
+    have h1 : fldVal (alloc (allocFields c rest).1 x.2).1
+        ⟨(alloc (allocFields c rest).1 x.2).2, if x.1 then some x.2.length else none⟩ = some x := by
+      simp only [fldVal]
+      have := lookup_alloc (allocFields c rest).1 x.2
+      simp only [alloc] at this ⊢
+      rw [this]
+      obtain ⟨b, a⟩ := x
+      cases b <;> simp
+    simp only [objVal, h1, h2]
+
+/-! ### the iterator in copy mode -/
+
+def itemOk (st : Store X) : Item X → Prop
+  | .disk _ => True
+  | .mem r => (lookupRef r st.objs).isSome
+
+/-- one `next()` of the repaired iterator either raises (dangling reference) or returns a FRESH object
+    (`freshRef st.objs`) on top of the old objects, with only new cells added, whose value is the
+    value of the item -/
+theorem yield1_copy (st : Store X) (it : Item X) :
+    yield1 .copy st it = .error .badRef ∨
+    ∃ o' c', yield1 .copy st it = .ok (⟨(alloc st.objs o').1, c'⟩, freshRef st.objs) ∧ Ext st.cells c' ∧
+      (∀ v, itemVal st it = some v → objVal c' o' = some v) ∧
+      (itemVal st it = none → objVal c' o' = none) := by
   cases it with
-  | disk v => rfl
+  | disk v =>
+    refine Or.inr ⟨(allocFields st.cells v).2, (allocFields st.cells v).1, rfl, (allocFields_spec v st.cells).1, ?_, ?_⟩
+    · intro v' hv'
+      simp only [itemVal, Option.some.injEq] at hv'
+      subst hv'
+      exact (allocFields_spec v st.cells).2
+    · intro h; simp [itemVal] at h
   | mem r =>
-    simp only [yield1, itemVal]
-    cases lookupRef r h <;> rfl
+    simp only [yield1]
+    cases hl : lookupRef r st.objs with
+    | none => exact Or.inl rfl
+    | some o =>
+      refine Or.inr ⟨o, st.cells, rfl, Ext.refl _, ?_, ?_⟩
+      · intro v hv; simpa [itemVal, deref, hl] using hv
+      · intro hv; simpa [itemVal, deref, hl] using hv
 
-theorem iterKeep_copy_ext (S : Sem Rec Sel Thr V) (op : Op Sel Thr) (sel : Sel) :
-    ∀ (its : List (Item Rec)) (h : Heap Rec), Ext h (iterKeep S .copy op sel h its).1 := by
+theorem itemVal_ext {st st' : Store X} (e : Ext2 st st') (it : Item X) (v : RecV X)
+    (hv : itemVal st it = some v) : itemVal st' it = some v := by
+  cases it with
+  | disk v' => exact hv
+  | mem r => exact deref_ext e r v hv
+
+theorem itemsVals_ext {st st' : Store X} (e : Ext2 st st') : ∀ (its : List (Item X)) (vs : List (RecV X)),
+    itemsVals st its = some vs → itemsVals st' its = some vs := by
   intro its
   induction its with
-  | nil => intro h; exact Ext.refl h
+  | nil => intro vs hv; exact hv
   | cons it its ih =>
-    intro h
-    simp only [iterKeep, yield1_copy]
-    cases hv : itemVal h it with
-    | none => exact Ext.refl h
+    intro vs hv
+    simp only [itemsVals] at hv ⊢
+    cases h1 : itemVal st it with
+    | none => simp [h1] at hv
     | some v =>
-      simp only [alloc]
-      have hl := lookup_alloc_update h v (S.keep sel)
-      simp only [alloc] at hl
-      simp only [hl]
-      have e := ext_alloc_update h v (S.keep sel)
-      simp only [alloc] at e
-      exact e.trans (ih _)
+      cases h2 : itemsVals st its with
+      | none => simp [h1, h2] at hv
+      | some ws =>
+        rw [itemVal_ext e it v h1, ih ws h2]
+        simpa [h1, h2] using hv
 
-theorem iterKeep_copy_out (S : Sem Rec Sel Thr V) (op : Op Sel Thr) (sel : Sel) :
-    ∀ (its : List (Item Rec)) (h : Heap Rec) (vs : List Rec), itemsVals h its = some vs →
-    (iterKeep S .copy op sel h its).2 = .ok (vs.map (fun v => S.view op (S.keep sel v))) := by
+theorem itemsVals_cons {st : Store X} {it : Item X} {its : List (Item X)} {vs : List (RecV X)}
+    (hv : itemsVals st (it :: its) = some vs) :
+    ∃ v ws, itemVal st it = some v ∧ itemsVals st its = some ws ∧ vs = v :: ws := by
+  simp only [itemsVals] at hv
+  cases h1 : itemVal st it with
+  | none => simp [h1] at hv
+  | some v =>
+    cases h2 : itemsVals st its with
+    | none => simp [h1, h2] at hv
+    | some ws =>
+      refine ⟨v, ws, rfl, rfl, ?_⟩
+      simp [h1, h2] at hv
+      exact hv.symm
+
+/-- the state after `keep` on the freshly yielded object -/
+theorem keep_fresh (st : Store X) (o' : Obj) (c' : Heap (List X)) (k : Nat) (e : Ext st.cells c') :
+    Ext2 st ⟨updateRef (freshRef st.objs) (keepObj k) (alloc st.objs o').1, c'⟩ ∧
+    deref ⟨updateRef (freshRef st.objs) (keepObj k) (alloc st.objs o').1, c'⟩ (freshRef st.objs)
+      = (objVal c' o').map (keepV k) := by
+  refine ⟨⟨ext_alloc_update st.objs o' (keepObj k), e⟩, ?_⟩
+  simp only [deref, lookup_alloc_update, objVal_keep]
+
+theorem deref_fresh (st : Store X) (o' : Obj) (c' : Heap (List X)) :
+    deref ⟨(alloc st.objs o').1, c'⟩ (freshRef st.objs) = objVal c' o' := by
+  simp only [deref, lookup_alloc]
+
+theorem iterKeep_copy_ext (S : Sem X Sel Thr V Pk) (op : Op Sel Thr Pk) (sel : Sel) :
+    ∀ (its : List (Item X)) (st : Store X), Ext2 st (iterKeep S .copy op sel none st its).1 := by
   intro its
   induction its with
-  | nil => intro h vs hv; simp only [itemsVals, Option.some.injEq] at hv; subst hv; rfl
+  | nil => intro st; exact Ext2.refl st
   | cons it its ih =>
-    intro h vs hv
+    intro st
+    simp only [iterKeep]
+    rcases yield1_copy st it with hy | ⟨o', c', hy, e, _, _⟩
+    · rw [hy]; exact Ext2.refl st
+    · rw [hy]
+      simp only [deref_fresh]
+      cases hv : objVal c' o' with
+      | none => exact ⟨ext_alloc _ _, e⟩
+      | some v =>
+        obtain ⟨e2, hd⟩ := keep_fresh st o' c' (S.nKeep sel v) e
+        simp only [hd, hv, Option.map]
+        exact e2.trans (ih _)
+
+theorem iterKeep_copy_out (S : Sem X Sel Thr V Pk) (op : Op Sel Thr Pk) (sel : Sel) :
+    ∀ (its : List (Item X)) (st : Store X) (vs : List (RecV X)), itemsVals st its = some vs →
+    (iterKeep S .copy op sel none st its).2 = .ok (vs.map (fun v => S.view op (S.keep sel v))) := by
+  intro its
+  induction its with
+  | nil => intro st vs hv; simp only [itemsVals, Option.some.injEq] at hv; subst hv; rfl
+  | cons it its ih =>
+    intro st vs hv
     obtain ⟨v, ws, h1, h2, rfl⟩ := itemsVals_cons hv
-    simp only [iterKeep, yield1_copy, h1]
-    simp only [alloc]
-    have hl := lookup_alloc_update h v (S.keep sel)
-    simp only [alloc] at hl
-    simp only [hl]
-    have e := ext_alloc_update h v (S.keep sel)
-    simp only [alloc] at e
-    rw [ih _ ws (itemsVals_ext e its ws h2)]
-    rfl
+    simp only [iterKeep]
+    rcases yield1_copy st it with hy | ⟨o', c', hy, e, hsome, _⟩
+    · -- a valid item cannot raise
+      exfalso
+      cases it with
+      | disk v' => simp [yield1] at hy
+      | mem r =>
+        simp only [itemVal, deref] at h1
+        simp only [yield1] at hy
+        cases hl : lookupRef r st.objs with
+        | none => simp [hl] at h1
+        | some o => simp [hl] at hy
+    · rw [hy]
+      simp only [deref_fresh, hsome v h1]
+      obtain ⟨e2, hd⟩ := keep_fresh st o' c' (S.nKeep sel v) e
+      simp only [hd, hsome v h1, Option.map]
+      rw [ih _ ws (itemsVals_ext e2 its ws h2)]
+      rfl
 
-theorem iterSplit_copy_ext (S : Sem Rec Sel Thr V) (t : Thr) :
-    ∀ (its : List (Item Rec)) (h : Heap Rec), Ext h (iterSplit S .copy t h its).1 := by
+theorem iterSplit_copy_ext (S : Sem X Sel Thr V Pk) (t : Thr) :
+    ∀ (its : List (Item X)) (st : Store X), Ext2 st (iterSplit S .copy t st its).1 := by
   intro its
   induction its with
-  | nil => intro h; exact Ext.refl h
+  | nil => intro st; exact Ext2.refl st
   | cons it its ih =>
-    intro h
-    simp only [iterSplit, yield1_copy]
-    cases hv : itemVal h it with
-    | none => exact Ext.refl h
-    | some v =>
-      have hl := lookup_alloc h v
-      simp only [alloc] at hl ⊢
-      simp only [hl]
-      have e := ext_alloc h v
-      simp only [alloc] at e
+    intro st
+    simp only [iterSplit]
+    rcases yield1_copy st it with hy | ⟨o', c', hy, e, _, _⟩
+    · rw [hy]; exact Ext2.refl st
+    · rw [hy]
+      simp only [deref_fresh]
+      have e1 : Ext2 st ⟨(alloc st.objs o').1, c'⟩ := ⟨ext_alloc _ _, e⟩
+      cases hv : objVal c' o' with
+      | none => exact e1
+      | some v =>
+        simp only
+        cases hg : S.isGood t v with
+        | error err => exact e1
+        | ok g => exact e1.trans (ih _)
+
+theorem iterSplit_copy_out (S : Sem X Sel Thr V Pk) (t : Thr) :
+    ∀ (its : List (Item X)) (st : Store X) (vs : List (RecV X)), itemsVals st its = some vs →
+    (iterSplit S .copy t st its).2 = splitSpec S t vs := by
+  intro its
+  induction its with
+  | nil => intro st vs hv; simp only [itemsVals, Option.some.injEq] at hv; subst hv; rfl
+  | cons it its ih =>
+    intro st vs hv
+    obtain ⟨v, ws, h1, h2, rfl⟩ := itemsVals_cons hv
+    simp only [iterSplit, splitSpec]
+    rcases yield1_copy st it with hy | ⟨o', c', hy, e, hsome, _⟩
+    · exfalso
+      cases it with
+      | disk v' => simp [yield1] at hy
+      | mem r =>
+        simp only [itemVal, deref] at h1
+        simp only [yield1] at hy
+        cases hl : lookupRef r st.objs with
+        | none => simp [hl] at h1
+        | some o => simp [hl] at hy
+    · rw [hy]
+      simp only [deref_fresh, hsome v h1]
+      have e1 : Ext2 st ⟨(alloc st.objs o').1, c'⟩ := ⟨ext_alloc _ _, e⟩
       cases hg : S.isGood t v with
-      | error err => exact e
-      | ok g => exact e.trans (ih _)
+      | error err => rfl
+      | ok g =>
+        simp only
+        rw [ih _ ws (itemsVals_ext e1 its ws h2)]
 
-theorem iterSplit_copy_out (S : Sem Rec Sel Thr V) (t : Thr) :
-    ∀ (its : List (Item Rec)) (h : Heap Rec) (vs : List Rec), itemsVals h its = some vs →
-    (iterSplit S .copy t h its).2 = splitSpec S t vs := by
-  intro its
-  induction its with
-  | nil => intro h vs hv; simp only [itemsVals, Option.some.injEq] at hv; subst hv; rfl
-  | cons it its ih =>
-    intro h vs hv
-    obtain ⟨v, ws, h1, h2, rfl⟩ := itemsVals_cons hv
-    simp only [iterSplit, yield1_copy, h1, splitSpec]
-    have hl := lookup_alloc h v
-    simp only [alloc] at hl ⊢
-    simp only [hl]
-    have e := ext_alloc h v
-    simp only [alloc] at e
-    cases hg : S.isGood t v with
-    | error err => rfl
-    | ok g =>
-      simp only
-      rw [ih _ ws (itemsVals_ext e its ws h2)]
-
-theorem step_copy_ext (S : Sem Rec Sel Thr V) (h : Heap Rec) (c : Op Sel Thr × Input Rec) :
-    Ext h (step S .copy h c).1 := by
+theorem step_copy_ext (S : Sem X Sel Thr V Pk) (st : Store X) (c : Op Sel Thr Pk × Input X)
+    (hc : c.1.noInplace = true) : Ext2 st (step S .copy st c).1 := by
   obtain ⟨op, inp⟩ := c
   cases op <;> simp only [step, printedOf, splitOf]
-  · exact iterKeep_copy_ext S _ _ _ h
-  · exact iterKeep_copy_ext S _ _ _ h
-  · exact iterKeep_copy_ext S _ _ _ h
-  · exact iterKeep_copy_ext S _ _ _ h
-  · exact iterSplit_copy_ext S _ _ h
+  · exact iterKeep_copy_ext S _ _ _ st
+  · exact iterKeep_copy_ext S _ _ _ st
+  · exact iterKeep_copy_ext S _ _ _ st
+  · exact iterKeep_copy_ext S _ _ _ st
+  · exact iterKeep_copy_ext S _ _ _ st
+  · exact iterKeep_copy_ext S _ _ _ st
+  · exact iterSplit_copy_ext S _ _ st
+  · simp [Op.noInplace] at hc
 
-theorem step_copy_out (S : Sem Rec Sel Thr V) (h : Heap Rec) (c : Op Sel Thr × Input Rec) (recs : List Rec)
-    (hd : denote h c.2 = some recs) : (step S .copy h c).2 = specOut S c.1 recs := by
+theorem step_copy_out (S : Sem X Sel Thr V Pk) (st : Store X) (c : Op Sel Thr Pk × Input X) (recs : List (RecV X))
+    (hc : c.1.noInplace = true) (hd : denote st c.2 = some recs) : (step S .copy st c).2 = specOut S c.1 recs := by
   obtain ⟨op, inp⟩ := c
   simp only [denote] at hd
   cases op <;> simp only [step, printedOf, splitOf, specOut]
-  · rw [iterKeep_copy_out S _ _ _ h recs hd]
-  · rw [iterKeep_copy_out S _ _ _ h recs hd]
-  · rw [iterKeep_copy_out S _ _ _ h recs hd]
-  · rw [iterKeep_copy_out S _ _ _ h recs hd]
-  · rw [iterSplit_copy_out S _ _ h recs hd]
+  · rw [iterKeep_copy_out S _ _ _ st recs hd]
+  · rw [iterKeep_copy_out S _ _ _ st recs hd]
+  · rw [iterKeep_copy_out S _ _ _ st recs hd]
+  · rw [iterKeep_copy_out S _ _ _ st recs hd]
+  · rw [iterKeep_copy_out S _ _ _ st recs hd]
+  · rw [iterKeep_copy_out S _ _ _ st recs hd]
+  · rw [iterSplit_copy_out S _ _ st recs hd]
+  · simp [Op.noInplace] at hc
 
-theorem run_copy_ext (S : Sem Rec Sel Thr V) : ∀ (calls : List (Op Sel Thr × Input Rec)) (h : Heap Rec),
-    Ext h (run S .copy h calls).1 := by
+theorem run_copy_ext (S : Sem X Sel Thr V Pk) : ∀ (calls : List (Op Sel Thr Pk × Input X)) (st : Store X),
+    (∀ c ∈ calls, c.1.noInplace = true) → Ext2 st (run S .copy st calls).1 := by
   intro calls
   induction calls with
-  | nil => intro h; exact Ext.refl h
+  | nil => intro st _; exact Ext2.refl st
   | cons c cs ih =>
-    intro h
+    intro st hc
     simp only [run]
-    exact (step_copy_ext S h c).trans (ih _)
+    exact (step_copy_ext S st c (hc c (List.mem_cons_self ..))).trans
+      (ih _ (fun c' h' => hc c' (List.mem_cons_of_mem _ h')))
 
 /-- outputs of a history as a function of what the inputs denote in the *initial* heap -/
-theorem run_copy_out (S : Sem Rec Sel Thr V) (h0 : Heap Rec) :
-    ∀ (calls : List (Op Sel Thr × Input Rec)) (h : Heap Rec), Ext h0 h →
-    (∀ c ∈ calls, ∃ recs, denote h0 c.2 = some recs) →
-    ∀ outs, (calls.map (fun c => (c.1, denote h0 c.2))) = outs →
-      (run S .copy h calls).2 = outs.map (fun p => match p.2 with
-                                                   | none => .error .badRef
-                                                   | some recs => specOut S p.1 recs) := by
+theorem run_copy_out (S : Sem X Sel Thr V Pk) (st0 : Store X) :
+    ∀ (calls : List (Op Sel Thr Pk × Input X)) (st : Store X), Ext2 st0 st →
+    (∀ c ∈ calls, c.1.noInplace = true) →
+    (∀ c ∈ calls, ∃ recs, denote st0 c.2 = some recs) →
+    ∀ outs, (calls.map (fun c => (c.1, denote st0 c.2))) = outs →
+      (run S .copy st calls).2 = outs.map (fun p => match p.2 with
+                                                    | none => .error .badRef
+                                                    | some recs => specOut S p.1 recs) := by
   intro calls
   induction calls with
-  | nil => intro h _ _ outs ho; subst ho; rfl
+  | nil => intro st _ _ _ outs ho; subst ho; rfl
   | cons c cs ih =>
-    intro h e hv outs ho
+    intro st e hc hv outs ho
     subst ho
     obtain ⟨recs, hr⟩ := hv c (List.mem_cons_self ..)
-    have hr' : denote h c.2 = some recs := itemsVals_ext e _ _ hr
+    have hr' : denote st c.2 = some recs := itemsVals_ext e _ _ hr
+    have hc1 := hc c (List.mem_cons_self ..)
     simp only [run, List.map_cons, hr]
-    rw [step_copy_out S h c recs hr']
-    rw [ih _ (e.trans (step_copy_ext S h c)) (fun c' hc' => hv c' (List.mem_cons_of_mem _ hc')) _ rfl]
+    rw [step_copy_out S st c recs hc1 hr']
+    rw [ih _ (e.trans (step_copy_ext S st c hc1)) (fun c' hc' => hc c' (List.mem_cons_of_mem _ hc'))
+      (fun c' hc' => hv c' (List.mem_cons_of_mem _ hc')) _ rfl]
 
 end part2
+
+/-! ## Part 3 — states -/
+section part3
+variable {F M Fl : Type}
+
+theorem source_state_roundtrip (s : Source F) (h : s.WF) : Source.setstate s.getstate = .ok s := by
+  obtain ⟨h1, h2, h3⟩ := h
+  simp [Source.setstate, Source.getstate, getKey, h1, h2, h3]
+
+theorem fitcore_state_roundtrip (c : FitCore F) (h : c.source.WF) : FitCore.setstate c.getstate = .ok c := by
+  obtain ⟨s, av, sc, chi2, mid, mn, mf⟩ := c
+  simp only [FitCore.setstate, FitCore.getstate, getKey]
+  simp only [String.reduceEq, if_true, if_false] 
+  cases mf <;> simp [source_state_roundtrip s h]
+
+theorem extinction_state_roundtrip (isLen isApm : String → Bool) (e : Extinction F) (h : e.WF isLen isApm) :
+    Extinction.setstate isLen isApm e.getstate = .ok e := by
+  obtain ⟨h1, h2, h3⟩ := h
+  simp [Extinction.setstate, Extinction.getstate, getKey, h1, h2, h3]
+
+theorem meta_state_roundtrip (isLen isApm : String → Bool) (m : Meta F Fl) (h : m.law.WF isLen isApm) :
+    Meta.setstate isLen isApm m.getstate = .ok m := by
+  simp [Meta.setstate, Meta.getstate, extinction_state_roundtrip isLen isApm m.law h]
+
+end part3
 end SF.Hist
